@@ -388,9 +388,39 @@ var (
 	rePtr       = regexp.MustCompile(`0x[0-9a-f]{6,}`)
 )
 
+// dropGoStacks removes the Go stack that TryStatement appends to the message of a recovered Go
+// panic ("...panic(<v>)\nstack: goroutine 1 [running]:\n<frames>"): the frames below the
+// script differ between the CLI and a generated binary (LoadAndRun vs RunCompiledFile).
+func dropGoStacks(s string) string {
+	if !strings.Contains(s, "stack: goroutine ") {
+		return s
+	}
+	lines := strings.Split(s, "\n")
+	out := lines[:0:0]
+	for i := 0; i < len(lines); i++ {
+		if !strings.HasPrefix(lines[i], "stack: goroutine ") {
+			out = append(out, lines[i])
+			continue
+		}
+		out = append(out, "stack: <go stack>")
+		j := i + 1
+		for j < len(lines) {
+			l := lines[j]
+			if strings.HasPrefix(l, "\t") || (j+1 < len(lines) && strings.HasPrefix(lines[j+1], "\t")) || strings.HasPrefix(l, "goroutine ") {
+				j++
+				continue
+			}
+			break
+		}
+		i = j - 1
+	}
+	return strings.Join(out, "\n")
+}
+
 // normalise removes what the translator does not carry (source positions, stack lines)
 // and what no two runs share (wall-clock stamps of the corpus logger, Go addresses).
 func normalise(s string) string {
+	s = dropGoStacks(s)
 	s = reStackLine.ReplaceAllString(s, "")
 	s = rePos.ReplaceAllString(s, "$1:POS")
 	s = reOnLine.ReplaceAllString(s, "on line N")
